@@ -132,6 +132,7 @@ PROPS = {
             {"pkg": "bscript", "name": "VH_C14_Inspect", "quick": {"params": {"L": 3}}, "thorough": {"params": {"L": 5}}},
             {"pkg": "bscript", "name": "VH_C14_Fixed"},
             {"pkg": "bscript", "name": "VH_C14_Templates"},
+            {"pkg": "bscript", "name": "VH_C14_Render", "quick": {"params": {"E": 2}}, "thorough": {"params": {"E": 3}}},
         ],
         "assumptions": [],
     },
